@@ -396,8 +396,8 @@ def _run(plan, base):
         w, knobs, sel_seed = plan["world"], plan["knobs"], plan["sel_seed"]
         steps_in = plan["steps"]
         nsteps = len(steps_in)
+    session.pin_dependencies(base / "mtscomp.json", pool_seed=plan["seed"] % 1000)
     W = World(base, w, knobs)
-    session.pin_dependencies(W.cfg, pool_seed=plan["seed"] % 1000)
     W.set_config()
     rsel = rng_of(sel_seed)
     model = {"bin": "complete", "cbin": "absent", "chunk_samples": None, "chunk_duration": None}
